@@ -15,7 +15,7 @@ import (
 
 func init() {
 	register("C07", propMeta{
-		Explanation: "E-GUARD + E-PROV + E-TAINT + E-CONST. O-1 sink wiring: in each of the five main packages every log.SetOutput(x) whose x is not directly a *safelog.LogScrubber is reachable only through the true edge of the unsafe-logging flag, and a SetOutput(&LogScrubber{...}) exists on the complementary edge; every log.New in non-test code is one of two listed rows (broker metrics logger, proxy periodic summary) whose use is confined to functions that print counts and units. O-2 the writer emits only scrubbed complete lines: in LogScrubber.Write every Output.Write argument is Scrub(buffer[:LastIndexByte(buffer, '\\n')+1]), reachable only when a newline was found; the remainder kept is the suffix after that index; the buffer is accessed only under the scrubber's mutex. O-3 events are scrubbed before leaving through the PT log: in package event every error.Error() value used by a String() method flows only into safelog.Scrub; the client's PT log receives only e.String(). O-4 delimiter consumption: the address pattern (constant-folded by the type checker, parsed with regexp/syntax) has delimiter groups on both sides; if some rune can be consumed by the right delimiter and is required by the left one, a driver that replaces non-overlapping matches in a single pass necessarily skips the second of two addresses separated by that rune, so such a driver must iterate to a fixpoint (call inside a loop whose exit is the equality of input and output). O-5 address-form table (E-CONST): the address pattern constant, compiled by the checker itself, matches each entry of a table of address spellings (every form class Go's net package prints or accepts: dotted IPv4, full, compressed and IPv4-embedded IPv6, bracketed and with ports) placed between delimiters. O-5 evaluates a constant of the source against a table; no repository code is executed. Added after the third seeding round: loggers and writers obtained in package initialisers (log.New(log.Writer(), ...)) are enumerated as well, since they are taken before main installs the scrubber; the lazily compiled pattern table falls under the shared-state rule.",
+		Explanation: "E-GUARD + E-PROV + E-TAINT + E-CONST. O-1 sink wiring: in each of the five main packages every log.SetOutput(x) whose x is not directly a *safelog.LogScrubber is reachable only through the true edge of the unsafe-logging flag, and a SetOutput(&LogScrubber{...}) exists on the complementary edge; every log.New in non-test code is one of two listed rows (broker metrics logger, proxy periodic summary) whose use is confined to functions that print counts and units. O-2 the writer emits only scrubbed complete lines: in LogScrubber.Write every Output.Write argument is Scrub(buffer[:LastIndexByte(buffer, '\\n')+1]), reachable only when a newline was found; the remainder kept is the suffix after that index; the buffer is accessed only under the scrubber's mutex. O-3 events are scrubbed before leaving through the PT log: in package event every error.Error() value used by a String() method flows only into safelog.Scrub; the client's PT log receives only e.String(). O-4 delimiter consumption: the address pattern (constant-folded by the type checker, parsed with regexp/syntax) has delimiter groups on both sides; if some rune can be consumed by the right delimiter and is required by the left one, a driver that replaces non-overlapping matches in a single pass necessarily skips the second of two addresses separated by that rune, so such a driver must iterate to a fixpoint (call inside a loop whose exit is the equality of input and output). O-5 address-form table (E-CONST): the address pattern constant, compiled by the checker itself, matches each entry of a table of address spellings (every form class Go's net package prints or accepts: dotted IPv4, full, compressed and IPv4-embedded IPv6, bracketed and with ports) placed between delimiters. O-5 evaluates a constant of the source against a table; no repository code is executed. Added after the third seeding round: loggers and writers obtained in package initialisers (log.New(log.Writer(), ...)) are enumerated as well, since they are taken before main installs the scrubber; the lazily compiled pattern table falls under the shared-state rule. Added after the fifth seeding round: the variable behind -unsafe-logging is set by no flag of another name; the address-form table is also tried directly after '/', '-', '@' and a quote; the metrics logger may be used by any function all of whose callers belong to the periodic report.",
 		NotDecided:  "coverage of the address grammar beyond the table's form classes (language inclusion is not decided), addresses adjacent to ':' or word characters (excluded by the statement), interleaving of concurrent writers beyond mutual exclusion.",
 		Assumptions: []string{"regexp.ReplaceAll* replace non-overlapping matches left to right", "log output of the standard logger is one Write per message"},
 	}, runC07)
@@ -37,6 +37,32 @@ func runC07(c *Ctx) {
 		}
 		c.analysedFn(p.FnName(mainFn))
 		unsafeEdges := boolEdges(mainFn, true, func(v ssa.Value) bool { return isFlagValue(v, "unsafe-logging") })
+		// the variable behind -unsafe-logging is set by no other flag (a deprecated spelling of another option
+		// registered on it with BoolVar switches the scrubber off for users who never asked for it)
+		for _, fn := range withAnon(mainFn) {
+			for _, ci := range callsTo(fn, "flag.BoolVar") {
+				ptr := ci.Common().Args[0]
+				name, _ := constString(ci.Common().Args[1])
+				isUnsafeVar := false
+				if cc, _, okc := callResult(ptr); okc && calleeName(cc) == "flag.Bool" {
+					if s0, _ := constString(cc.Call.Args[0]); s0 == "unsafe-logging" {
+						isUnsafeVar = true
+					}
+				}
+				if refs := ptr.Referrers(); refs != nil && !isUnsafeVar {
+					for _, r := range *refs {
+						if c2, okc := r.(ssa.CallInstruction); okc && calleeName(c2) == "flag.BoolVar" && c2.Common().Args[0] == ptr {
+							if s0, _ := constString(c2.Common().Args[1]); s0 == "unsafe-logging" {
+								isUnsafeVar = true
+							}
+						}
+					}
+				}
+				if isUnsafeVar && !strings.Contains(strings.ToLower(name), "unsafe") {
+					c.viol(rule1, rel+": flag -"+name+" sets the unsafe-logging variable", p.instrPos(ci), "an option that has nothing to do with logging is registered on the variable that disables the scrubber: giving that option writes the log unscrubbed")
+				}
+			}
+		}
 		nSafe := 0
 		n := 0
 		for _, fn := range withAnon(mainFn) {
@@ -75,9 +101,49 @@ func runC07(c *Ctx) {
 	// rows verified: the loggers are used only where listed
 	if f := p.Field("broker", "Metrics", "logger"); f != nil {
 		bad := 0
+		// the functions that make up the periodic report: printMetrics, the loop that calls it, and every function
+		// all of whose static callers are among them (a locked/unlocked split of printMetrics, a line helper)
+		report := map[*ssa.Function]bool{}
+		for _, n := range []string{"(*Metrics).printMetrics", "(*Metrics).logMetrics"} {
+			if fn := p.Fn("broker", n); fn != nil {
+				report[fn] = true
+			}
+		}
+		for changed := true; changed; {
+			changed = false
+			for _, fn := range p.FnsIn("broker") {
+				if report[fn] || fn.Parent() != nil {
+					continue
+				}
+				callers := p.realCallers(fn)
+				if len(callers) == 0 || fnValueUses(fn) > 0 {
+					continue
+				}
+				all := true
+				for _, ci := range callers {
+					root := ci.Parent()
+					for root.Parent() != nil {
+						root = root.Parent()
+					}
+					if !report[root] {
+						all = false
+					}
+				}
+				if all {
+					report[fn] = true
+					changed = true
+				}
+			}
+		}
+		inReport := func(fn *ssa.Function) bool {
+			for fn.Parent() != nil {
+				fn = fn.Parent()
+			}
+			return report[fn]
+		}
 		for _, a := range accessesOfField(p.FnsIn("broker"), f, false) {
 			pm := p.Fn("broker", "(*Metrics).printMetrics")
-			if a.Kind == accRead && (pm == nil || !belongsTo(a.Fn, pm)) {
+			if a.Kind == accRead && (pm == nil || (!belongsTo(a.Fn, pm) && !inReport(a.Fn))) {
 				bad++
 				c.viol(rule1, p.FnName(a.Fn)+" uses the metrics logger", p.instrPos(a.Instr), "the unscrubbed metrics logger is used outside printMetrics")
 			}
@@ -259,9 +325,33 @@ func (c *Ctx) checkScrubberWrite() {
 		c.viol(rule, "Write locates the last newline of the buffer", p.Pos(w.Pos()), "no bytes.LastIndexByte(buffer, '\\n')")
 		return
 	}
+	// the index: the call itself, or a loop variable every alternative of which is such a call (a three-clause for)
+	isIdxCall := func(v ssa.Value) bool {
+		cc, ok := v.(*ssa.Call)
+		if !ok {
+			return false
+		}
+		n := calleeName(cc)
+		return (n == "bytes.LastIndexByte" || n == "bytes.IndexByte") && isFieldLoadOf(cc.Call.Args[0], bufF) && isNL(cc.Call.Args[1])
+	}
+	isIdx := func(v ssa.Value) bool {
+		if v == ssa.Value(idx) {
+			return true
+		}
+		ph, ok := v.(*ssa.Phi)
+		if !ok {
+			return false
+		}
+		for _, lf := range valueLeaves(ph, nil) {
+			if !isIdxCall(lf.V) {
+				return false
+			}
+		}
+		return true
+	}
 	found := condEdges(w, false, func(a Atom) bool {
 		k, ok := constInt(a.Y)
-		return a.Op == token.EQL && ok && k == -1 && a.X == ssa.Value(idx)
+		return a.Op == token.EQL && ok && k == -1 && isIdx(a.X)
 	})
 	endIdx := func(v ssa.Value) bool { // idx + 1
 		bo, ok := v.(*ssa.BinOp)
@@ -269,7 +359,7 @@ func (c *Ctx) checkScrubberWrite() {
 			return false
 		}
 		k, okk := constInt(bo.Y)
-		return okk && k == 1 && bo.X == ssa.Value(idx)
+		return okk && k == 1 && isIdx(bo.X)
 	}
 	nOut := 0
 	for _, ci := range callsIn(w) {
@@ -437,7 +527,7 @@ func (c *Ctx) checkAddressPattern() {
 	miss := 0
 	for _, a := range addressForms {
 		ok := true
-		for _, ctx := range [][2]string{{" ", " "}, {"", ""}, {"(", ")"}, {"=", ","}} {
+		for _, ctx := range [][2]string{{" ", " "}, {"", ""}, {"(", ")"}, {"=", ","}, {"/", "/"}, {"-", " "}, {"@", " "}, {"\"", "\""}} {
 			line := ctx[0] + a + ctx[1]
 			loc := cre.FindStringIndex(line)
 			// the match must cover the whole address
